@@ -410,7 +410,18 @@ func (c *C06) Do(in *hub.Instance, gg Ghost, op engine.Op, st *engine.Step) {
 	c06Choosers.Delete(gid)
 	c.apply(in, g, op)
 	st.Obs = d0[:6]
+	// what a node emits must not depend on where its binary was built: a source file path in an event attribute (the
+	// " [dir/file.go:line]" suffix cosmos-sdk's wrapped errors print under %v) differs between two checkouts of one commit
+	for _, e := range in.Events {
+		for _, a := range e.Attributes {
+			if m := c06SourcePath.Find(a.Value); m != nil {
+				st.Violate("C06", "event_embeds_the_build_environment", e.Type+"."+string(a.Key), "op %s: event %s attribute %s = %q names the source file %s of the build: two nodes built from the same commit in different directories emit different events", op, e.Type, a.Key, a.Value, m)
+			}
+		}
+	}
 }
+
+var c06SourcePath = regexp.MustCompile(`[^ \[\]"']*/[^ \[\]"']*\.go:[0-9]+`)
 
 func init() {
 	base := MultiRunner(func(tier string) ([]MultiCase, []string) {
